@@ -33,7 +33,7 @@ def safe_names(rng, n, ext, hostile=0.35):
 
 
 class Driver:
-    def __init__(self, world, rng, weights=None, max_cols=5, pool=10, uids=7, ascii_names=False, audit_every=5, hostile=0.35, kinds=("calendar", "addressbook", "plain")):
+    def __init__(self, world, rng, weights=None, max_cols=6, pool=10, uids=7, ascii_names=False, audit_every=5, hostile=0.35, kinds=("calendar", "addressbook", "plain")):
         self.w = world
         self.rng = rng
         self.weights = dict(DEFAULT_WEIGHTS)
@@ -503,6 +503,9 @@ class Driver:
         if back and path in self.w.cols and self.rng.random() < 0.7:
             # the same bytes under the same name in the new incarnation of a deleted collection
             n, body, uid, tok = self.rng.choice(back)
+            if self.rng.random() < 0.5:
+                # ... or under another name: nothing of the old collection is left that could hold its UID
+                n = "again-" + n
             self.w.put(path, n, body, op="put_into_recreated", uid=uid, token=tok)
             self.count("put_into_recreated")
         return [path, self.w.parent_of(path)]
@@ -516,6 +519,11 @@ class Driver:
 
     def op_delete_col(self):
         col = self.pick_col()
+        # half of the time: a collection whose last upload was refused (what a client may well do next: give up on it)
+        refused = [c for c in self.w.cols.values() if getattr(c, "last_put_refused", False) and c.backend != "bare" and not c.path.rstrip("/").endswith(("calendars", "contacts"))]
+        if refused and self.rng.random() < 0.5:
+            col = self.rng.choice(refused)
+            self.count("delete_col_after_refused_put")
         if col is None or col.backend == "bare":
             return None
         path, kind = col.path, col.kind
